@@ -37,7 +37,7 @@ Theorem C15_every_opcode_computes_its_function :
   exists name body,
     entry jump_table op =
       plain_op g (N.of_nat (cfun_arity f)) (1024 + N.of_nat (cfun_arity f) - 1) name /\
-    exec_stmt op_bodies name op = Some body /\ pc_extra name op = 0%N /\
+    exec_stmt op_bodies name op = Some body /\ assigns_pc body = false /\
     comp_correct globals body f.
 Proof. exact (t_comp _ _ _ real_table_ok). Qed.
 Print Assumptions C15_every_opcode_computes_its_function.
@@ -46,7 +46,7 @@ Print Assumptions C15_every_opcode_computes_its_function.
 Theorem C15_exp_computes_power :
   exists name body,
     entry jump_table 10 = mkOp true 0 2 1025 false false false false false true false name "gasExp" "" /\
-    exec_stmt op_bodies name 10 = Some body /\ pc_extra name 10 = 0%N /\
+    exec_stmt op_bodies name 10 = Some body /\ assigns_pc body = false /\
     comp_correct globals body (F2 spec_exp).
 Proof. exact (t_exp _ _ _ real_table_ok). Qed.
 Print Assumptions C15_exp_computes_power.
@@ -94,17 +94,17 @@ Print Assumptions C15_spec_is_textbook.
       environment, calls, logs and jumps belong to C16. *)
 Definition C15_full : Prop :=
   forall (code : list N) (gas : N) (pool0 : list Z) (n : nat),
-    bytes_ok code -> (gas < gas_bound)%N ->
+    bytes_ok code -> (N.of_nat (length code) < 4294967296)%N -> (gas < gas_bound)%N ->
     let sr := spec_run code n (mkP [] [] 0 gas []) [] in
     fst sr <> PUnsupported ->
     exists r, run jump_table op_bodies code n (init_state globals pool0 gas) [] = (r, snd sr) /\
-              res_rel globals gas r (fst sr).
+              res_rel globals gas code r (fst sr).
 
 Lemma programs_refine : C15_full.
 Proof.
-  intros code gas pool0 n Hcode Hgas sr Hsup.
-  pose proof (init_wf globals gas Hgas pool0 gas (N.le_refl _)) as Hwf.
-  exact (run_sim globals jump_table op_bodies real_table_ok gas Hgas code Hcode n
+  intros code gas pool0 n Hcode Hlen Hgas sr Hsup.
+  pose proof (init_wf globals gas Hgas code Hlen pool0 gas (N.le_refl _)) as Hwf.
+  exact (run_sim globals jump_table op_bodies real_table_ok gas Hgas code Hcode Hlen n
            (init_state globals pool0 gas) [] Hwf Hsup).
 Qed.
 
@@ -115,12 +115,12 @@ Print Assumptions C15_programs_refine_the_specification.
 (* the same from any reachable (well-formed) state, e.g. in the middle of a program *)
 Theorem C15_programs_from_any_state :
   forall (G0 : N) (code : list N) (n : nat) (s : istate) (tops : list Z),
-    (G0 < gas_bound)%N -> bytes_ok code -> WFI globals G0 s ->
+    (G0 < gas_bound)%N -> bytes_ok code -> (N.of_nat (length code) < 4294967296)%N -> WFI globals G0 code s ->
     fst (spec_run code n (abs s) tops) <> PUnsupported ->
     exists r, run jump_table op_bodies code n s tops = (r, snd (spec_run code n (abs s) tops)) /\
-              res_rel globals G0 r (fst (spec_run code n (abs s) tops)).
+              res_rel globals G0 code r (fst (spec_run code n (abs s) tops)).
 Proof.
-  exact (fun G0 code n s tops HG Hc => run_sim globals jump_table op_bodies real_table_ok G0 HG code Hc n s tops).
+  exact (fun G0 code n s tops HG Hc Hl => run_sim globals jump_table op_bodies real_table_ok G0 HG code Hc Hl n s tops).
 Qed.
 Print Assumptions C15_programs_from_any_state.
 
@@ -145,10 +145,10 @@ Theorem C15_memory_and_storage_read_back :
   (forall s k v k', k' <> k -> st_get (st_set s k v) k' = st_get s k') /\
   (exists name body,
      entry jump_table 84 = plain_op 800 1 1024 name /\ exec_stmt op_bodies name 84 = Some body /\
-     pc_extra name 84 = 0%N /\ sload_correct globals body) /\
+     assigns_pc body = false /\ sload_correct globals body) /\
   (exists name body,
      entry jump_table 85 = mkOp true 0 2 1026 false false true false false true false name "gasSStoreEIP2200" "" /\
-     exec_stmt op_bodies name 85 = Some body /\ pc_extra name 85 = 0%N /\ sstore_correct globals body).
+     exec_stmt op_bodies name 85 = Some body /\ assigns_pc body = false /\ sstore_correct globals body).
 Proof.
   exact (conj mload_mstore (conj st_get_set_same (conj st_get_set_other
           (conj (t_sload _ _ _ real_table_ok) (t_sstore _ _ _ real_table_ok))))).
@@ -196,12 +196,12 @@ Definition ex_code : list N :=
    127; 255;255;255;255;255;255;255;255;255;255;255;255;255;255;255;255;255;255;255;255;255;255;255;255;255;255;255;255;255;255;255;255;
    5; 96;7; 128; 1; 96;0; 82; 96;0; 81; 96;3; 144; 27; 0]%N.
 Example C15_nonvacuous_program :
-  bytes_ok ex_code /\ (100000 < gas_bound)%N /\
+  bytes_ok ex_code /\ (N.of_nat (length ex_code) < 4294967296)%N /\ (100000 < gas_bound)%N /\
   fst (spec_run ex_code 40 (mkP [] [] 0 100000 []) []) =
     PStop (mkP [49152; 0] (be_bytes 32 14) 81 99956 []) /\
   fst (run jump_table op_bodies ex_code 40 (init_state globals [(-42); 2 ^ 300; 7] 100000) []) <> Next (init_state globals [] 0).
 Proof.
-  split; [unfold bytes_ok, ex_code; repeat constructor|].
+  split; [unfold bytes_ok, ex_code; repeat constructor|]. split; [reflexivity|].
   split; [reflexivity|]. split; [vm_compute; reflexivity|]. vm_compute. discriminate.
 Qed.
 Print Assumptions C15_nonvacuous_program.
@@ -226,7 +226,7 @@ Example C15_nonvacuous_opcode :
   spec_sar 300 (2 ^ 256 - 5) = 2 ^ 256 - 1 /\ spec_shl 256 1 = 0 /\
   spec_signextend 31 12345 = 12345 /\ spec_byte 32 (2 ^ 256 - 1) = 0 /\ spec_div 7 0 = 0.
 Proof.
-  split; [exact (wfi_cfg _ _ _ (init_wf globals 1000 eq_refl [5; 6; 7] 1000 (N.le_refl _)))|].
+  split; [exact (wfi_cfg _ _ _ _ (init_wf globals 1000 eq_refl [] eq_refl [5; 6; 7] 1000 (N.le_refl _)))|].
   repeat split; vm_compute; reflexivity.
 Qed.
 Print Assumptions C15_nonvacuous_opcode.
